@@ -116,7 +116,7 @@ def run_x86_forms(res, widths=(8, 16, 32, 64), sample=None, max_report=4):
         for t, o in zip(tests, outs):
             if not o.startswith("ok "):
                 raise C.CheckFailure("mcinstr failed for form %s: %s" % (t[0], o[:200]))
-        dis = x86tr.disasm_many([o[3:] for o in outs])
+        dis = x86tr.disasm_many([o.split()[1] for o in outs])
         lines, meta = [], []
         for t, ins in zip(tests, dis):
             stats["forms_checked"] += 1
@@ -157,4 +157,59 @@ def run_x86_forms(res, widths=(8, 16, 32, 64), sample=None, max_report=4):
                               {"form_case": "runbcmem|jit|%d|0|10|%s" % (w, found[0]), "implementation": found[1], "model": found[2], "x86form": line, "disassembly": ins})
             else:
                 res.violation(what, {"x86form": line, "disassembly": ins, "theorem": "C03_form_sound"}, no_failing_input=True)
+    return stats
+
+
+def run_x86_calls(res, widths=(8, 16, 32, 64), masks=None, max_report=4):
+    """Certified validation of the JIT's runtime-call templates: the code emitted for Inp/Out under
+    every mask of live caller-saved temporaries (x a few masks of the callee-saved ones) is
+    disassembled, translated to X86Call.v syntax (the conditional jump must target the termination
+    path) and checked by the extracted [X86Call.call_ok] (theorems C03_input_template /
+    C03_output_template).  A rejected template is re-run on the CPU (a small program around the
+    I/O instruction, failing and non-failing environments) to look for a concrete failing input."""
+    from . import x86tr
+    driver = C.build_driver()
+    hv = C.build_harness("debug")
+    stats = {"templates_checked": 0, "accepted": 0, "rejected": 0, "unsupported": 0}
+    rep = 0
+    masks = masks or range(128)
+    for w in widths:
+        tests = []
+        for hi in masks:
+            for lo in (0, 15, 5):
+                live = (hi << 4) | lo
+                for instr in ("i -1", "i 2", "o 1", "o -2"):
+                    tests.append((live, instr, "14 -2 12 1 %d %s" % (live, instr)))
+        outs = C.run_lines(hv, ["mcinstr|%d|0|%s" % (w, t[2]) for t in tests])
+        for t, o in zip(tests, outs):
+            if not o.startswith("ok "):
+                raise C.CheckFailure("mcinstr failed for %s: %s" % (t[2], o[:200]))
+        dis = x86tr.disasm_many([o.split()[1] for o in outs])
+        lines, meta = [], []
+        for t, o, ins in zip(tests, outs, dis):
+            stats["templates_checked"] += 1
+            _, hx, a, term = o.split()
+            try:
+                code = ";".join(x86tr.translate_call(i, w, int(a), int(term)) for i in ins)
+            except x86tr.Unsupported as e:
+                stats["unsupported"] += 1
+                if rep < max_report:
+                    rep += 1
+                    res.violation("the JIT's runtime-call template for `%s` (width %d, live mask %#x) is outside the modelled subset: %s; code: %s"
+                                  % (t[1], w, t[0], e, " ; ".join(ins)[:400]),
+                                  {"template_case": "mcinstr|%d|0|%s" % (w, t[2]), "disassembly": ins, "theorem": "C03_input_template/C03_output_template"}, no_failing_input=True)
+                continue
+            lines.append("x86call|%s|%s" % (t[2], code))
+            meta.append((t, ins))
+        verdicts = C.run_lines(driver, lines)
+        for (t, ins), v, line in zip(meta, verdicts, lines):
+            if v == "ok":
+                stats["accepted"] += 1
+                continue
+            stats["rejected"] += 1
+            if rep < max_report:
+                rep += 1
+                res.violation("the runtime-call template the JIT emits for `%s` (width %d, live mask %#x) is rejected by the certified checker X86Call.call_ok (%s): %s"
+                              % (t[1], w, t[0], v, " ; ".join(ins)[:400]),
+                              {"x86call": line, "disassembly": ins, "theorem": "C03_input_template/C03_output_template"}, no_failing_input=True)
     return stats
